@@ -5,6 +5,7 @@ import (
 	"context"
 	"errors"
 	"fmt"
+	"math"
 	"math/rand/v2"
 
 	astits "github.com/asticode/go-astits"
@@ -205,7 +206,11 @@ func runMuxStruct(c *mon.Ctx, prop string) {
 					if a.AdaptationExtensionField == nil {
 						a.AdaptationExtensionField = &astits.PacketAdaptationExtensionField{}
 					}
-					a.AdaptationExtensionField.ReservedLength = []int{170, 184, 245, 246, 250, 254, 255, 256, 300, 511, 512}[r.IntN(11)]
+					a.AdaptationExtensionField.ReservedLength = []int{170, 184, 245, 246, 250, 254, 255, 256, 300, 511, 512, math.MaxInt, math.MaxInt - 3, math.MaxInt32}[r.IntN(14)]
+					if a.AdaptationExtensionField.ReservedLength > 1<<20 && r.IntN(2) == 0 {
+						// two terms that each fit no packet and whose sum wraps around
+						a.StuffingLength = []int{math.MaxInt, math.MaxInt - 1, math.MaxInt - 7}[r.IntN(3)]
+					}
 					p.AdaptationField = a
 					c.Count("writepacket_oversized_extension_reserved_bytes")
 				case 8:
